@@ -419,6 +419,8 @@ package node
 //@   loop 2 invariant rangeindex$2 < len(keyStrs)
 //@   loop 2 invariant p != nil && p.Meta != nil
 //@   loop 2 decreases len(keyStrs) - rangeindex$2
+//@   callsite Split: arg1 == "," ==> arg0 === segment[equalsMark+1:]
+//@   callsite Split: arg1 == "/" ==> arg0 === pathStr
 //@   ensures result1 == nil ==> (forall k int :: 0 <= k && k < len(result0) ==> result0[k] != nil && result0[k].Meta != nil && (len(result0[k].Key) > 0 ==> dyn(result0[k].Meta) == *meta.List))
 
 // ---- C12: the edit protocol seen by node implementations (ghost bookkeeping) ---------------------------------
@@ -661,6 +663,7 @@ package node
 //@   check [insertCreates] strategy == editInsert && fromChild != nil && !newChild ==> result != nil
 //@   check [updateNeverCreates] strategy == editUpdate ==> !newChild
 //@   check [createIssuesNew] newChild ==> nodeWrites >= old(nodeWrites) + 1
+//@   callsite enter: arg2 == newChild && arg3 == strategy && !arg4 && !arg5
 //@   assigns open, failed, nodeWrites, writesAfterFail, fieldWrites, fieldPostChecks, nonNavChecks, caseClears, from.Constraints.compiled, to.Constraints.compiled
 //@   ensures stepOK(result)
 
@@ -670,6 +673,8 @@ package node
 //@   requires editPre(from, to) && m != nil && from.Path != nil
 //@   assigns open, failed, nodeWrites, writesAfterFail, fieldWrites, fieldPostChecks, nonNavChecks, caseClears, from.Constraints.compiled, to.Constraints.compiled
 //@   loop 1 invariant open == old(open) && !failed && writesAfterFail == old(writesAfterFail)
+//@   callsite enter: arg2 == (nodeWrites > at(1, nodeWrites))
+//@   callsite enter: arg3 == editUpsert && !arg4 && !arg5
 //@   ensures stepOK(result)
 
 // clearing the data of a choice case (ClearField for leafs, Find + Delete for the rest) is abstracted:
